@@ -15,7 +15,7 @@ open Cppcms Cppcms.C20
 
 /-- the engine matched and the match is the entire subject -/
 def whole (rx : Rx) (r : Regex) (s : Bytes) : Option Raw :=
-  match rx.exec r.pat r.icase s with
+  match rx.exec r.pat r.flags s with
   | none => none
   | some raw => if raw.1 = ((0 : Int), (s.length : Int)) then some raw else none
 
@@ -30,7 +30,7 @@ def groupStr (s : Bytes) (raw : Raw) (n : Int) : Bytes := (group s raw n).getD [
 
 /-- groups `0 .. mark_count` -/
 def groups (rx : Rx) (r : Regex) (s : Bytes) (raw : Raw) : List (Option Bytes) :=
-  (List.range ((rx.info r.pat r.icase).getD 0 + 1)).map fun (i : Nat) => group s raw (Int.ofNat i)
+  (List.range ((rx.info r.pat r.flags).getD 0 + 1)).map fun (i : Nat) => group s raw (Int.ofNat i)
 
 def upperAZ (c : UInt8) : Bool := 65 ≤ c.toNat && c.toNat ≤ 90
 
@@ -39,7 +39,45 @@ def methodOk (rx : Rx) (filter req : Option Bytes) : Bool :=
   match filter, req with
   | none, _ => true
   | some _, none => false
-  | some m, some r => if m.all upperAZ then m == r else (whole rx ⟨m, false⟩ r).isSome
+  | some m, some r => if m.all upperAZ then m == r else (whole rx ⟨m, {}⟩ r).isSome
+
+/-! ### what a typed parameter is supposed to be
+
+An integer parameter is a decimal numeral: optional leading white space, one optional sign, at least one digit and
+nothing else, whose value lies in the range of the type (for unsigned types a minus sign negates modulo `2^bits`,
+as `strtoul` does, and the magnitude must fit). -/
+
+def isSpace (c : UInt8) : Bool := c == 32 || (9 ≤ c.toNat && c.toNat ≤ 13)
+def isDigit (c : UInt8) : Bool := 48 ≤ c.toNat && c.toNat ≤ 57
+def digitsValue (ds : Bytes) : Nat := ds.foldl (fun a c => a * 10 + (c.toNat - 48)) 0
+
+def numeral (signed : Bool) (bits : Nat) (s : Bytes) : Option Int :=
+  let s := s.dropWhile isSpace
+  let neg := s.head? == some 45
+  let ds := if s.head? == some 45 || s.head? == some 43 then s.drop 1 else s
+  if ds.isEmpty || !ds.all isDigit then none
+  else
+    let v := digitsValue ds
+    if signed then
+      (if neg then (if v ≤ 2 ^ (bits - 1) then some (-(v : Int)) else none)
+       else (if v ≤ 2 ^ (bits - 1) - 1 then some (v : Int) else none))
+    else if v ≤ 2 ^ bits - 1 then some (if neg then (((2 ^ bits - v) % 2 ^ bits : Nat) : Int) else (v : Int))
+    else none
+
+def decInt (v : Int) : Bytes :=
+  let ds := (Nat.toDigits 10 v.natAbs).map fun c => UInt8.ofNat c.toNat
+  if v < 0 then 45 :: ds else ds
+
+/-- a captured group as a parameter of type `t`: it must be valid text, and for integer types a numeral in range -/
+def convert (rx : Rx) (t : PType) (s : Bytes) : Option Bytes :=
+  if rx.valid s then
+    match t with
+    | .str => some s
+    | .i32 => (numeral true 32 s).map decInt
+    | .u32 => (numeral false 32 s).map decInt
+    | .i64 => (numeral true 64 s).map decInt
+    | .u64 => (numeral false 64 s).map decInt
+  else none
 
 /-- Does handler `l` apply to `url`, and if so what does it observe and does it accept?
 Generic handlers exist only for applications with a request context. -/
@@ -52,6 +90,12 @@ def leafTry (rx : Rx) (req : Option Bytes) (l : Leaf) (url : Bytes) : Option (Bo
         match rej with
         | some (g, v) => if groupStr url raw g == v then (false, .rejected l.id args) else (true, .ran l.id args)
         | none => (true, .ran l.id args)
+    else none
+  | .typed ps =>
+    -- applies only if the pattern matches the whole URL AND every selected group converts to its parameter type
+    if req.isSome && methodOk rx l.meth req then
+      (whole rx l.re url).bind fun raw =>
+        (ps.mapM fun gt => (convert rx gt.2 (groupStr url raw gt.1)).map some).map fun vals => (true, .ran l.id vals)
     else none
   | .h0 => (whole rx l.re url).map fun _ => (true, .ran l.id [])
   | .hN sel => (whole rx l.re url).map fun raw => (true, .ran l.id (sel.map fun n => some (groupStr url raw n)))
@@ -105,6 +149,10 @@ def _root_.Cppcms.C20.Event.args : Event → List (Option Bytes)
   | .ran _ a => a
   | .rejected _ a => a
   | .notFound => []
+
+/-- `x` is a contiguous piece of `url`, or (typed handlers) the value that such a piece converts to -/
+def ArgOf (rx : Rx) (url x : Bytes) : Prop :=
+  ∃ s, s <:+: url ∧ (x = s ∨ ∃ t, convert rx t s = some x)
 
 /-- `application::main` on the root -/
 def main (rx : Rx) (req : Option Bytes) (o : Opts) (url : Bytes) : List Event :=
